@@ -58,7 +58,8 @@ impl <N: Numeric> ArrayRational<N> for Array<N> {
         self.abs()?.zip(&other.abs()?)?
             .map(|item| {
                 let (x, y) = (item.0.to_i32(), item.1.to_i32());
-                N::from(x * y / _gcd(x, y))
+                let gcd = _gcd(x, y);
+                N::from(if gcd == 0 { 0 } else { x * y / gcd })
             })
     }
 
